@@ -469,6 +469,26 @@ func (e *c10env) direct(cc c10col, a, b, o oval) []finding {
 		do := o.datum(c.IsMap())
 		d1, ch1 := updates.VerifDifference(o.native(c, false), a.native(c, false))
 		d2, ch2 := updates.VerifDifference(a.native(c, false), b.native(c, false))
+		if ch1 != ch2 {
+			// one of the two steps changes nothing (its difference is nil): the merge
+			// must be the other difference and must say that there is a difference
+			md, chm := updates.VerifMergeDifference(o.native(c, false), d1, d2)
+			if !ch2 {
+				// "no difference" is also expressed by an untyped nil (a mutation without effect)
+				if md2, chm2 := updates.VerifMergeDifference(o.native(c, false), d1, nil); !chm2 {
+					chm = false
+				} else {
+					md = md2
+				}
+			}
+			if !chm {
+				fs = append(fs, finding{"C10/direct/merge-flag/" + kind, fmt.Sprintf("merge(o, diff(o,a), diff(a,b)) reports 'no difference' although o != b: o=%s a=%s b=%s", o, a, b)})
+			} else if res, _ := updates.VerifApplyDifference(o.native(c, false), md); true {
+				if got, err := dyn.FromNative(c, res); err != nil || !got.Equal(db) {
+					fs = append(fs, finding{"C10/direct/merge-law/" + kind, fmt.Sprintf("apply(o, merge(o, diff(o,a), diff(a,b))) = %s (%v), expected b: o=%s a=%s b=%s", got, err, o, a, b)})
+				}
+			}
+		}
 		if ch1 && ch2 {
 			md, chm := updates.VerifMergeDifference(o.native(c, false), d1, d2)
 			var got ref.Datum
